@@ -48,6 +48,18 @@ class LSkel(Skel):
                 else:
                     inner += self.ops(a)
             rp = field_path(strip(e0["recv"]))
+            if m == "collect" and not e0["args"]:
+                # `it.map(f).collect::<Result<Vec<_>, _>>()` is `for x in it { v.push(f(x)?) }`: adaptors are lazy, so their closures run
+                # per item inside the one loop that stores the items (a plain container stores every item, a Result / Option container
+                # stops at the first failure)
+                ty = e0.get("ty") or ""
+                cont = any(x in ty for x in ("::Vec<", "::HashSet<", "::VecDeque<", "::BTreeSet<"))
+                fall = ty.startswith(("std::result::Result<", "std::option::Option<", "core::result::Result<", "core::option::Option<"))
+                if cont:
+                    pre, fused = list(inner), []
+                    while pre and pre[-1][0] == "loop":
+                        fused = list(pre.pop()[1]) + fused
+                    return pre + [("loop", tuple(fused) + ((("?",),) if fall else ()) + (("push",),))]
             if m in DICT:
                 tf = maps.table_field(rp) if rp else None
                 return inner + [("dict", m, tf or argkey(e0["recv"]))]
